@@ -27,7 +27,7 @@ def rewrite_configs(scs, limit=120):
     groups = {}
     for sc in scs:
         r = sc['req']
-        if r['kind'] != 'normal' or r['custom'] != 'absent':
+        if r['kind'] != 'normal' or r['custom'] != 'absent' or r.get('pre'):
             continue
         if r['proto'] == 'h2':
             # through the fork's own Transport: what Go's client cannot put on the wire is left to the raw-frame drivers
